@@ -8,6 +8,7 @@ package vhook
 import (
 	"fmt"
 	"os"
+	"reflect"
 	"sort"
 )
 
@@ -41,8 +42,15 @@ func Keys[M ~map[K]V, K comparable, V any](m M, site string) []K {
 		return keys
 	}
 	strs := make([]string, len(keys))
+	ptrKeys := reflect.TypeOf(keys[0]).Kind() == reflect.Ptr
 	for i, k := range keys {
-		strs[i] = fmt.Sprint(k)
+		if ptrKeys {
+			// pointer keys have no run-independent order (and may have an expensive
+			// String method): order by the mapped value instead
+			strs[i] = fmt.Sprint(m[k])
+		} else {
+			strs[i] = fmt.Sprint(k)
+		}
 	}
 	idx := make([]int, len(keys))
 	for i := range idx {
